@@ -10,7 +10,7 @@ from mc.stats import Stats
 
 EXPLORER = "E1"
 RULE = ("E1: columns A,B,C with domains (2,3,2)/(3,2,2); data = every multiset of <=k rows over the joint domain; DAG family "
-        "covering every (node, parent set); estimators MLE, Bayesian K2 / BDeu(ess 1, 5, per-node dict) / Dirichlet (scalar and "
+        "covering every (node, parent set); estimators MLE, Bayesian K2 / BDeu(ess 1, 5, per-node dict) / Dirichlet (integer and fractional scalar, "
         "arrays with pairwise distinct entries), model.fit, DAG.fit, fit_update with previous CPDs whose parents are listed in "
         "every order and n_prev in {1,10,None}; declared-but-unseen states, categorical (ordered/unordered) and int columns, "
         "weighted rows; invariance under row / column / edge-insertion permutation; fitted network passes check_model. "
@@ -153,7 +153,7 @@ def pseudo_array(v, pa, dom):
     return arr, d
 
 
-CONFIGS = ["mle", "k2", "bdeu1", "bdeu5dict", "dir2", "dirarr"]
+CONFIGS = ["mle", "k2", "bdeu1", "bdeu5dict", "dir2", "dirhalf", "dirarr"]
 
 
 def _estimate(config, model, df, v, pa, dom, state_names=None, weighted=False):
@@ -174,6 +174,8 @@ def _estimate(config, model, df, v, pa, dom, state_names=None, weighted=False):
         cpds = be.get_parameters(prior_type="BDeu", equivalent_sample_size={"A": 5, "B": 2, "C": 7}, n_jobs=1, weighted=weighted)
         ess = {"A": 5, "B": 2, "C": 7}[node]
         return [c for c in cpds if c.variable == node][0], {j: [F(ess, r * q)] * r for j in conf}
+    if config == "dirhalf":  # fractional scalar pseudo-count
+        return be.estimate_cpd(node, prior_type="dirichlet", pseudo_counts=0.5, weighted=weighted), {j: [F(1, 2)] * r for j in conf}
     if config == "dir2":
         return be.estimate_cpd(node, prior_type="dirichlet", pseudo_counts=2, weighted=weighted), {j: [F(2)] * r for j in conf}
     arr, d = pseudo_array(v, pa, dom)
